@@ -938,9 +938,7 @@ class Transaction:
 
             # the SHA256 of all spent outputs' scriptPubKeys
             for scr in script_pubkeys:
-                s = scr.to_hex()
-                script_len = int(len(s) / 2)
-                hash_script_pubkeys += bytes([script_len]) + h_to_b(s)
+                hash_script_pubkeys += prepend_compact_size(scr.to_bytes())
             hash_script_pubkeys = hashlib.sha256(hash_script_pubkeys).digest()
             tx_for_signing += hash_script_pubkeys
 
@@ -956,7 +954,7 @@ class Transaction:
                 amount_bytes = struct.pack("<Q", txout.amount)
                 script_bytes = txout.script_pubkey.to_bytes()
                 hash_outputs += (
-                    amount_bytes + struct.pack("B", len(script_bytes)) + script_bytes
+                    amount_bytes + encode_varint(len(script_bytes)) + script_bytes
                 )
             hash_outputs = hashlib.sha256(hash_outputs).digest()
             tx_for_signing += hash_outputs
@@ -977,9 +975,7 @@ class Transaction:
 
             tx_for_signing += amounts[txin_index].to_bytes(8, "little")
 
-            script_pubkey = script_pubkeys[txin_index].to_hex()
-            script_len = int(len(script_pubkey) / 2)
-            tx_for_signing += bytes([script_len]) + h_to_b(script_pubkey)
+            tx_for_signing += prepend_compact_size(script_pubkeys[txin_index].to_bytes())
 
             tx_for_signing += txin.sequence
         else:
@@ -996,7 +992,7 @@ class Transaction:
             amount_bytes = struct.pack("<Q", txout.amount)
             script_bytes = txout.script_pubkey.to_bytes()
             hash_output = (
-                amount_bytes + struct.pack("B", len(script_bytes)) + script_bytes
+                amount_bytes + encode_varint(len(script_bytes)) + script_bytes
             )
             tx_for_signing += hashlib.sha256(hash_output).digest()
 
